@@ -60,6 +60,7 @@ func streamEngine(t *testing.T, o *Out, p EngProfile) {
 	id := 0
 	emit := func(c *EngCase, tag string, withConc bool) int64 {
 		id++
+		o.Pre("engine", fmt.Sprintf("%s%d", tag, id), c.Payload())
 		res, calls := env.runCheck(c, true)
 		if calls > callBudget {
 			o.Count("dropped:cost")
